@@ -173,6 +173,28 @@ def shapes(tier):
         add("variant_mixed", decl, hsrc,
             [Harness("per_variant_rule", "caller options, variant and probe ids symbolic", covers=2, unwind=10,
                      asserts="the delegation rule is applied per variant")], True)
+        # an enum-level default format (no `_variant`) takes no part in a variant that has its own attribute: its bare placeholder still delegates
+        # (seed C05-own-bare-placeholder-not-delegated-under-enum-default)
+        decl = D + '#[%s("default")]\npub enum S {\n    #[%s("{_0}")]\n    W(Probe),\n    X(Probe),\n    #[%s("{}", _0)]\n    Y(Probe),\n}' % (attr, attr, attr)
+        hsrc = """    #[kani::proof]
+    #[kani::unwind(10)]
+    fn own_attribute_under_enum_default() {
+        let o = any_opts();
+        let s = match kani::any::<u8>() %% 3 { 0 => S::W(%(P)s), 1 => S::X(%(P)s), _ => S::Y(%(P)s) };
+        let (s1, t1) = run_fmt!(%(T)s, &s, o);
+        let (s2, t2) = run_fmt!(%(T)s, &s, FormattingOptions::new());
+        match &s {
+            S::W(p) | S::Y(p) => assert!(t1.n == 1 && t1.ev[0] == Some(Ev { id: p.id, tr: b'D', opts: o }), "a variant's own bare placeholder must pass the flags through, whatever the enum-level default says"),
+            S::X(_) => assert!(s1.same(&s2) && t1 == t2 && t1.n == 0, "the variant without attribute prints the enum-level default text"),
+        }
+        kani::cover!(matches!(s, S::W(_)), "reach W");
+        kani::cover!(matches!(s, S::X(_)), "reach X");
+    }
+""" % dict(P=P, T=trait)
+        if trait != "Debug":   # an enum-level format is rejected for Debug (C07)
+            add("variant_bare_under_enum_default", decl, hsrc,
+                [Harness("own_attribute_under_enum_default", "caller options, variant and probe ids symbolic", covers=2, unwind=10,
+                         asserts="a variant's own bare placeholder delegates also when the enum carries a default format")], True)
     # 'an index that denotes no argument must not delegate' seen from the user's side: format_args! has to see the literal and reject it
     # (fix 445ad48).  Must-not-compile programs, decided by rustc while the harness crate is built - not a solver result.
     from ..shapes import reject_shape
